@@ -213,6 +213,11 @@ def _attempt_type_coercion(
             if not math.isfinite(coerced):
                 return value, False
 
+            # Underflow is lossy too: a non-zero numeral such as "1e-400" collapses to 0.0
+            mantissa = value_stripped.lower().split("e")[0]
+            if coerced == 0.0 and any(digit in mantissa for digit in "123456789"):
+                return value, False
+
         # Log the repair (I4 compliance)
         repair_log.add(
             rule_id="TYPE_COERCION",
